@@ -50,7 +50,12 @@ func vfGccNewDriver(sc *vfGccScript, lg *vfGccLog) (*vfGccDriver, error) {
 	if sc.Pacer == "default" {
 		leaky, _ = bwe.pacer.(*LeakyBucketPacer)
 	}
-	bwe.OnTargetBitrateChange(func(v int) { lg.cb(v) })
+	bwe.OnTargetBitrateChange(func(v int) {
+		// an observer that asks the estimator from inside its callback (the value may already be a newer one)
+		_ = bwe.GetTargetBitrate()
+		_ = bwe.GetStats()
+		lg.cb(v)
+	})
 	feed := func(pkts []rtcp.Packet) string {
 		err := bwe.WriteRTCP(pkts, nil)
 		switch {
